@@ -1544,8 +1544,18 @@ class Irc(IrcCommandDispatcher, log.Firewalled):
                     self.sasl_username and self.sasl_password:
                 self.sasl_next_mechanisms.append(mechanism)
 
-        if self.sasl_next_mechanisms:
-            self.REQUEST_CAPABILITIES.add('sasl')
+        # 'sasl' is only requested on networks with a usable mechanism. It must
+        # not be added to REQUEST_CAPABILITIES itself: that is a class
+        # attribute, shared by the Irc objects of all networks.
+        self.sasl_wanted = bool(self.sasl_next_mechanisms)
+
+    def _wantedCapabilities(self):
+        """REQUEST_CAPABILITIES, plus 'sasl' if this network has credentials
+        for one of the configured SASL mechanisms."""
+        if self.sasl_wanted:
+            return self.REQUEST_CAPABILITIES | set(['sasl'])
+        else:
+            return self.REQUEST_CAPABILITIES
 
 
     # Note: echo-message is only requested if labeled-response is available.
@@ -1935,7 +1945,7 @@ class Irc(IrcCommandDispatcher, log.Firewalled):
             # caps twice for no reason.
             new_caps = (
                 set(self.state.capabilities_ls) &
-                self.REQUEST_CAPABILITIES -
+                self._wantedCapabilities() -
                 self.state.capabilities_ack)
             # NOTE: Capabilities are requested in alphabetic order, because
             # sets are unordered, and their "order" is nondeterministic.
@@ -1980,7 +1990,7 @@ class Irc(IrcCommandDispatcher, log.Firewalled):
             return
         common_supported_unrequested_capabilities = (
                 set(self.state.capabilities_ls) &
-                self.REQUEST_CAPABILITIES -
+                self._wantedCapabilities() -
                 self.state.capabilities_ack)
         if common_supported_unrequested_capabilities:
             self._requestCaps(common_supported_unrequested_capabilities)
